@@ -7,9 +7,18 @@ From PT Require Import Str Py AttrScript LoaderScripts Attr AttrReach C09Proofs.
 Import ListNotations.
 Open Scope string_scope.
 
+(* table[0] stands for itself only in the covalent_radius group (Model/Attr.v): the witnesses use it there only *)
+Definition en_ok (a : pact) : bool :=
+  match a with
+  | PLop (LGet _ En n) | PLop (LHas _ En n) | PLop (LSetA _ En n) | PLop (LMut _ En n) =>
+      N.eqb (group_of_name n) (group_of_name "covalent_radius")
+  | _ => true
+  end.
+
 Section W.
   Variable safe : pstate -> lop -> bool.
-  Variable alpha : N -> list pact.
+  Variable alpha0 : N -> list pact.
+  Definition alpha (g : N) : list pact := filter en_ok (alpha0 g).
 
   Definition wst := (pstate * list pact)%type.      (* state, reversed path *)
 
